@@ -21,6 +21,14 @@ Theorem C03_bind : forall cfg s items,
 Proof. exact (fun cfg s items => call_equiv cfg TRIGGER_KWARGS s items). Qed.
 Print Assumptions C03_bind.
 
+(* from the `def` statement: a parameter has a default iff a default expression is written, whatever it evaluates to
+   (EvalFunc.eval_defaults derives the keyword-only flag from the AST node, never from the value) *)
+Theorem C03_bind_def : forall cfg f items,
+  Bind.all_off cfg -> sig_wf_b (py_sig_of_def f) = true ->
+  call_ps cfg TRIGGER_KWARGS (ps_sig_of_def f) items = call_spec TRIGGER_KWARGS (py_sig_of_def f) items.
+Proof. exact (fun cfg f items => call_equiv_def cfg TRIGGER_KWARGS f items). Qed.
+Print Assumptions C03_bind_def.
+
 (* the same after unpacking: positional values [args] and a keyword dictionary [kw] (distinct keys) *)
 Theorem C03_bind_unpacked : forall cfg s args kw,
   Bind.all_off cfg -> sig_wf s -> NoDup (keys kw) ->
